@@ -87,3 +87,29 @@ Proof. vm_compute. split; reflexivity. Qed.
 (* edit modes: ((p0 and-not p1) xor p2) then replace *)
 Eval vm_compute in eval (fun n => lm0 n 0 0) (apply_modes (Leaf 0) [(MAndNot, Leaf 1); (MXor, Leaf 2)]).
 Eval vm_compute in napply_modes table_cfg (NLeaf 1 None 0) [(MAndNot, NLeaf 2 None 1); (MOr, NMulti 3 (Some 12) [NLeaf 4 None 2])] 10.
+
+(* ---- combine_multiple as translated from the source (coq/gen/Gen_combine.v) ---- *)
+(* six operands selecting one element each of a 6-element dataset: the xor / or of all six selects everything (an operand
+   that is lost shows), no operand: the empty selection (leaf 99), one operand: the operand itself (same identity) *)
+Definition lm6 (n : nat) : mask := map (fun i => Nat.eqb i n) [0; 1; 2; 3; 4; 5].
+Definition ops6 : list nexpr := map (fun n => NLeaf (S n) None n) [0; 1; 2; 3; 4; 5].
+Example combine_six_xor :
+  match gcombine_n table_cfg None 99 BXor ops6 100 with
+  | Some (r, _) => eval lm6 (erase r) = [true; true; true; true; true; true] /\ nid r = 124
+  | None => False
+  end.
+Proof. vm_compute. split; reflexivity. Qed.
+Example combine_none_and_one :
+  gcombine_n table_cfg None 99 BOr [] 100 = Some (NLeaf 100 None 99, 101) /\
+  gcombine_n table_cfg None 99 BAnd [NLeaf 1 None 0] 100 = Some (NLeaf 1 None 0, 100).
+Proof. vm_compute. split; reflexivity. Qed.
+(* a reduction that loses an operand does NOT satisfy the theorem's equation: it is not vacuous *)
+Example dropping_an_operand_shows :
+  eval lm6 (erase (fst (ncombine table_cfg None 99 BXor (firstn 5 ops6) 100))) <>
+  combine_masks (lm6 99) BXor (map (fun e => eval lm6 (erase e)) ops6).
+Proof. vm_compute. discriminate. Qed.
+(* the translated edit modes and Subset / SubsetGroup operators on objects *)
+Eval vm_compute in gapply_modes_n table_cfg (NLeaf 1 None 0) [(MAndNot, NLeaf 2 None 1); (MXor, NLeaf 3 None 2)] 10.
+Eval vm_compute in gvia_n table_cfg 0 1 (NLeaf 1 None 0) (Some (NLeaf 2 None 1)) 10.
+Eval vm_compute in gvia_n table_cfg 1 4 (NLeaf 1 None 0) None 10.
+Eval vm_compute in gvia_n table_cfg 0 4 (NLeaf 1 None 0) (Some (NLeaf 2 None 1)) 10.   (* ~ with two operands: TypeError *)
